@@ -200,10 +200,16 @@ class Contract:
     inline = False
 
     layer = "gadget"        # "gadget": verified against the ghost backend; otherwise the real modules are loaded
+    raises_unspecified = False   # True: any exception is acceptable ("... or the operation raises"); no R clauses
     probe = False           # True: setup() returns a harness closure over several real functions (no single target)
 
     def world_setup(self, w):
         """Module overrides / environment for non-gadget layers."""
+
+    @property
+    def target(self):
+        """The function whose body is verified ("name#variant" contracts share a function)."""
+        return self.name.split("#")[0]
 
     # ---- to be overridden ---------------------------------------------------
     def configs(self, tier):
